@@ -137,24 +137,24 @@ class Model:
     def cls(self, ref, optional=False):
         return self.find(ref, (ast.ClassDef,), optional)
 
-    def func_view(self, ref, depth=2):
+    def func_view(self, ref, depth=2, exclude=()):
         """helper calls expanded (func_expanded) and single-assignment pure locals propagated (inline.propagate_locals):
         the view of a function that is indifferent to extract-method and to hoisting/inlining of sub-expressions"""
-        key = ("view", ref, depth)
+        key = ("view", ref, depth, tuple(exclude))
         cache = self.__dict__.setdefault("_expanded", {})
         if key not in cache:
             from .inline import propagate_locals
-            cache[key] = propagate_locals(self.func_expanded(ref, depth))
+            cache[key] = propagate_locals(self.func_expanded(ref, depth, exclude))
         return cache[key]
 
-    def func_expanded(self, ref, depth=2):
+    def func_expanded(self, ref, depth=2, exclude=()):
         """the function with calls to same-class / same-module helpers expanded in place (engine/inline.py): rules that
         look for constructs *inside* a body are then indifferent to extract-method refactorings"""
-        key = (ref, depth)
+        key = (ref, depth, tuple(exclude))
         cache = self.__dict__.setdefault("_expanded", {})
         if key not in cache:
             from .inline import expand
-            cache[key] = expand(self, ref, depth)
+            cache[key] = expand(self, ref, depth, exclude)
         return cache[key]
 
     def classes(self, rel):
